@@ -415,8 +415,8 @@ where
 
     #[inline(always)]
     fn interpolate(a: f64, b: f64, t: f64) -> f64 {
-        debug_assert!((0. ..=1.).contains(&t));
-        debug_assert!(a <= b);
+        // no assertions on `t` and on `a <= b`: a fused centroid's mean can exceed max (or fall below
+        // min) by an ulp, and `t` can leave [0, 1] by an ulp, through floating-point rounding alone
         t * b + (1. - t) * a
     }
 
